@@ -196,6 +196,14 @@ def py_isinstance(st, x, cls):
             kinds = {list} if isinstance(o, HList) else {dict} if isinstance(o, (HDict, HMap)) else set()
             if isinstance(o, HObject):
                 pc = getattr(o, "pycls", None)
+                if o.cls == "ext.Stream":
+                    # a caller-supplied file-like object: known not to be a socket (that is the other constructor branch), otherwise
+                    # of unknown class - it may or may not be an io.RawIOBase, a BufferedReader, seekable ...
+                    import socket as _socket
+                    if all(c is _socket.socket or c is object for c in classes):
+                        return any(c is object for c in classes)
+                    from pyvc.values import fresh_name
+                    return SBool(z3.Bool(fresh_name("stream_isinstance")))
                 if pc is None:
                     return False if all(c in (int, str, bytes, tuple, list, dict, float, bool) for c in classes) else _unsupported("isinstance on ghost object")
                 return issubclass(pc, classes)
